@@ -52,7 +52,65 @@ static std::string gen_int_field(Tape &t, int *kind, bool mtu)
 	}
 }
 
-static CaseResult run_case(Tape &t)
+extern "C" {
+int tun_setip(const char *ip, const char *other_ip, int netbits);
+int tun_setmtu(const unsigned mtu);
+int bsd_tun_setip(const char *ip, const char *other_ip, int netbits);
+int bsd_tun_setmtu(const unsigned mtu);
+}
+
+// every word of a command: a fixed word, a strict dotted quad (optionally followed by /prefix-length), or an integer 201..1500
+static std::string judge_command(const std::string &cmd)
+{
+	static const char *WORDS[] = {"PATH=/sbin:/bin", "ifconfig", "dns0", "netmask", "mtu", "/sbin/ifconfig", "/sbin/route", "route", "add", ""};
+	for (unsigned char ch : cmd) if (ch < 0x20 || ch == 0x7f) return "a command passed to system() contains a control character: " + json_escape(cmd);
+	size_t i = 0;
+	while (i <= cmd.size()) {
+		size_t j = cmd.find(' ', i); if (j == std::string::npos) j = cmd.size();
+		std::string w = cmd.substr(i, j - i);
+		bool ok = false;
+		for (const char *fw : WORDS) if (w == fw) ok = true;
+		if (!ok && strict_quad(w)) ok = true;
+		if (!ok) { size_t sl = w.find('/'); if (sl != std::string::npos && strict_quad(w.substr(0, sl))) { std::string n = w.substr(sl + 1); if (!n.empty() && n.size() <= 2 && n.find_first_not_of("0123456789") == std::string::npos && atoi(n.c_str()) <= 32) ok = true; } }
+		if (!ok && !w.empty() && w.size() <= 4 && w.find_first_not_of("0123456789") == std::string::npos) { int v = atoi(w.c_str()); ok = v >= 201 && v <= 1500 && w[0] != '0'; }
+		if (!ok) return "word '" + json_escape(w) + "' of the command passed to system() is neither a fixed word, a strict dotted quad nor an integer in the accepted range: " + json_escape(cmd);
+		i = j + 1;
+	}
+	return "";
+}
+
+// unit case: tun_setip / tun_setmtu called directly (the arguments handshake_login passes on), in the Linux flavour and in the BSD
+// flavour of tun.c (which puts the server address on the command line and adds a route command)
+static CaseResult unit_case(Tape &t)
+{
+	CaseResult r;
+	int k1 = 0, k2 = 0, k3 = 0;
+	std::string ip = gen_addr_field(t, &k1).substr(0, 64), other = gen_addr_field(t, &k2).substr(0, 64);
+	if (ip.find('-') != std::string::npos) ip = ip.substr(0, ip.find('-'));          // sscanf("%64[^-]") stops at '-'
+	if (other.find('-') != std::string::npos) other = other.substr(0, other.find('-'));
+	ip = ip.substr(0, ip.find('\0')); other = other.substr(0, other.find('\0'));
+	static const long long NB[] = {-2147483647LL - 1, -1, 0, 1, 8, 24, 27, 30, 31, 32, 33, 64, 2147483647LL};
+	int netbits = t.chance(1, 2) ? (int)t.below(33) : (int)NB[t.below(13)];
+	static const long long MT[] = {-1, 0, 1, 200, 201, 1130, 1500, 1501, 65535, 4294967295LL};
+	unsigned mtu = t.chance(1, 2) ? 201 + t.below(1300) : (unsigned)MT[t.below(10)];
+	(void)k3;
+	bool bsd = t.chance(1, 2);
+	sim::W.unit_system.clear();
+	int rc1 = bsd ? bsd_tun_setip(ip.c_str(), other.c_str(), netbits) : tun_setip(ip.c_str(), other.c_str(), netbits);
+	int rc2 = bsd ? bsd_tun_setmtu(mtu) : tun_setmtu(mtu);
+	std::vector<std::string> sys = sim::W.unit_system;
+	sim::W.unit_system.clear();
+	r.render = fmt("unit(%s): tun_setip(\"%s\", \"%s\", %d)=%d tun_setmtu(%u)=%d -> %zu commands", bsd ? "BSD" : "Linux", json_escape(ip.substr(0, 50)).c_str(), json_escape(other.substr(0, 50)).c_str(), netbits, rc1, mtu, rc2, sys.size());
+	for (auto &cmd : sys) { r.render += " | " + json_escape(cmd); std::string e = judge_command(cmd); if (!e.empty()) r.fail(bsd ? "C13:peer-text-in-command:bsd" : "C13:peer-text-in-command", e); }
+	bool plain = strict_quad(ip) && strict_quad(other) && netbits >= 0 && netbits <= 32;
+	if (plain && sys.empty()) r.fail("C13:control", "valid addresses and prefix length produced no configuration command: " + r.render);
+	r.nontrivial = !plain || mtu <= 200 || mtu > 1500;
+	r.cls(bsd ? "unit:bsd-templates" : "unit:linux-templates");
+	if (!sys.empty()) r.cls("commands-executed");
+	return r;
+}
+
+static CaseResult system_case(Tape &t)
 {
 	CaseResult r;
 	scn::Config c;
@@ -128,6 +186,8 @@ static CaseResult run_case(Tape &t)
 	r.cls(std::string("enc:") + enc);
 	return r;
 }
+
+static CaseResult run_case(Tape &t) { return t.pick({2, 1}) == 0 ? system_case(t) : unit_case(t); }
 
 int main(int argc, char **argv)
 {
